@@ -48,11 +48,14 @@ class C05(Prop):
         maxlen = 4 if tier == "quick" else 5
         self.exhaustive = True
         self.stats["exhaustive_scope"] = f"all sequences over {LEVELS} of length 2..{maxlen} (>= 2 distinct values) x ratios [1],[1,2],[1,3,2] x 2 laws"
-        for n in range(2, maxlen + 1):
-            for s in itertools.product(LEVELS, repeat=n):
-                if two_distinct(s):
-                    k = (sum(s) // 100 + n) % 3
-                    yield {"kind": "seq", "law": "sat" if (s[0] // 100) % 2 else "linear", "samples": list(s), "ratios": [[1], [1, 2], [1, 3, 2]][k]}
+        seen = set()
+        for lv, ml in ((LEVELS, maxlen), ([-300, -200, -100, 0, 100, 200, 300], maxlen - 1)):
+            for n in range(2, ml + 1):
+                for s in itertools.product(lv, repeat=n):
+                    if two_distinct(s) and s not in seen:
+                        seen.add(s)
+                        k = (sum(s) // 100 + n) % 3
+                        yield {"kind": "seq", "law": "sat" if (s[0] // 100) % 2 else "linear", "samples": list(s), "ratios": [[1], [1, 2], [1, 3, 2]][k]}
         nrand = 300 if tier == "quick" else 4000
         for _ in range(nrand):
             n = rng.randint(2, 12)
